@@ -142,6 +142,16 @@ def block_gen(P, f, b, depth, stack):
     return res
 
 
+def _edge_zero(P, f, l):
+    if l is None or l[0] not in ('T', 'F'):
+        return set()
+    out = set()
+    for a in atoms(l[1], l[0] == 'T'):
+        if a[0] == 'z' and isinstance(a[1], tuple) and a[1] and a[1][0] in GLOBKINDS:
+            out.add(P.gkey(f, a[1][0], a[1][1]))
+    return out
+
+
 def kill(P, f, depth=0, stack=()):
     """Globals assigned on every path through f (forward must-analysis on the
     CFG, callee summaries, intersection over the targets of slot calls)."""
@@ -186,7 +196,8 @@ def kill(P, f, depth=0, stack=()):
         it += 1
         for b in order:
             if b != f.entry:
-                ins = [OUT[p] for p, l in preds.get(b, ()) if p in reach and OUT[p] is not TOP]
+                # an edge on which a global is known to be zero/NULL (exit of "while (List) { ... }") counts as a reset
+                ins = [OUT[p] | _edge_zero(P, f, l) for p, l in preds.get(b, ()) if p in reach and OUT[p] is not TOP]
                 if not ins:
                     continue
                 new_in = set.intersection(*ins) if ins else set()
